@@ -219,7 +219,7 @@ fn tail_steered<V: Fv>(ctx: &Ctx, nkeys: usize, per_key: usize, rep: &mut Report
                 Err(p) => rep.violation(&format!("panic:verify@{}", short_loc(&p.location)), p.message.clone(), replay.clone()),
                 Ok(v1) => {
                     if !v1 || !v2 {
-                        rep.violation("sign:signature-rejected-tail-coefficient", format!("{} honest signature with an s2 coefficient in the far tail (min {}, max {}) rejected: verify = {}, reference = {} ({:?}); {} norm rejects", V::NAME, mn, mx, v1, v2, trace, out.norm_rejects), replay.clone());
+                        rep.violation("sign:signature-rejected-tail-coefficient", format!("{} honest signature with an {} coefficient in the far tail (min {}, max {}) rejected: verify = {}, reference = {} ({:?}); {} norm rejects", V::NAME, if second_half { "s2" } else { "s1" }, mn, mx, v1, v2, trace, out.norm_rejects), replay.clone());
                     }
                 }
             }
